@@ -94,8 +94,20 @@ func VerifC15Load() {
 		order[i] = base.o
 		all = append(all, l)
 	}
+	savedAll := append([]Loader{}, all...)
 	// the loaders are installed one by one, all at once, or half and half
-	switch nd.Choose(3) {
+	switch nd.Choose(4) {
+	case 3:
+		// the caller builds two configurations from one base list: what it adds to the second one is the
+		// second one's business only
+		c.SetLoaders(all[:n/2]...)
+		c.AddLoaders(all[n/2:]...)
+		c2 := NewConfigure()
+		c2.SetBinder(&vBinder{fail: -1})
+		c2.SetLoaders(all[:n/2]...)
+		var calls2 []int
+		c2.AddLoaders(&vLoadPlain{vLoad{id: n, doc: 'q', calls: &calls2}})
+		nd.Cover("two configurations built from one base list")
 	case 0:
 		for _, l := range all {
 			c.AddLoaders(l)
@@ -107,7 +119,6 @@ func VerifC15Load() {
 		c.SetLoaders(all[:n/2]...)
 		c.AddLoaders(all[n/2:]...)
 	}
-	savedAll := append([]Loader{}, all...)
 	err := c.Initialize()
 	// the caller's own list of sources may be reordered, but no source in it is lost or duplicated
 	// (the same list may be used for another application)
